@@ -261,6 +261,17 @@ def run_instance(d):
                                            "rlimit", "refine_rlimit", "weight")})
     out = {"name": inst.name, "prop": inst.prop, "harness": inst.harness, "params": inst.params, "uf": inst.uf,
            "errors": [], "findings": [], "unreproduced": [], "bound_hit": False}
+    import signal
+
+    def _alarm(signum, frame):
+        raise TimeoutError("instance exceeded its wall-clock budget of %ds" % limit)
+
+    limit = int(d.get("time_limit") or os.environ.get("VERIF_INSTANCE_LIMIT", "900"))
+    try:
+        signal.signal(signal.SIGALRM, _alarm)
+        signal.alarm(limit)
+    except (ValueError, AttributeError):
+        pass
     try:
         from . import shims, symx
 
@@ -313,6 +324,10 @@ def run_instance(d):
         out["unreproduced"] = [u for u in ctx.unreproduced if u["key"] not in ctx.reproduced]
     except Exception as e:  # noqa: BLE001
         out["errors"].append("".join(traceback.format_exception(type(e), e, e.__traceback__))[-3000:])
+    try:
+        signal.alarm(0)
+    except (ValueError, AttributeError):
+        pass
     out["wall_s"] = round(time.time() - t0, 2)
     return out
 
